@@ -52,17 +52,29 @@ Inductive find_err :=
   | ENoConfigInDir   (* "config file was not found in .regal directory" *)
   | EOutOfFuel.      (* model artefact; excluded for every chain, see find_nearest *)
 
-(* findUpwards: os.Stat(path) must succeed; the search starts in [path] itself when it is a
-   directory and in filepath.Dir(path) otherwise.  Fuel: one iteration per path component. *)
-Definition find_upwards (fs : fsys) (path name : str) (expect_dir : bool) : up_result :=
-  match fs path with
+(* filepath.Abs on unix: an absolute path is cleaned, a relative one joined onto the working directory *)
+Definition abs_path (cwd p : str) : str :=
+  if is_rooted p then clean p else pjoin [cwd; p].
+
+(* findUpwards.  The path is made absolute first (commit f78e575; [use_abs] = false gives the
+   code as it was at the pinned commit, which cut elements off the path as it was spelled);
+   os.Stat(path) must succeed (the OS resolves a relative path against [cwd]); the search starts
+   in the path itself when it is a directory and in filepath.Dir(path) otherwise.
+   Fuel: one iteration per path element. *)
+Definition find_upwards_gen (use_abs : bool) (fs : fsys) (cwd path name : str) (expect_dir : bool)
+  : up_result :=
+  let target := abs_path cwd path in
+  let start := if use_abs then target else path in
+  match fs target with
   | NAbsent => UNone
-  | NDir => find_upwards_loop (S (length path)) fs path name expect_dir
-  | NFile => find_upwards_loop (S (length path)) fs (dir path) name expect_dir
+  | NDir => find_upwards_loop (S (length start)) fs start name expect_dir
+  | NFile => find_upwards_loop (S (length start)) fs (dir start) name expect_dir
   end.
 
-Definition find_regal_directory fs path := find_upwards fs path REGAL true.
-Definition find_regal_config_file fs path := find_upwards fs path REGAL_YAML false.
+Definition find_upwards := find_upwards_gen true.
+
+Definition find_regal_directory fs cwd path := find_upwards fs cwd path REGAL true.
+Definition find_regal_config_file fs cwd path := find_upwards fs cwd path REGAL_YAML false.
 
 Inductive find_result := FFound (p : str) | FErr (e : find_err).
 
@@ -78,9 +90,9 @@ Definition found (r : up_result) : bool := match r with UFound _ => true | _ => 
 
 (* FindConfig, statement by statement.  As in the Go code the two parent strings are only
    computed when BOTH searches succeed and are "" otherwise. *)
-Definition find_config (fs : fsys) (path : str) : find_result :=
-  let rd := find_regal_directory fs path in
-  let rf := find_regal_config_file fs path in
+Definition find_config_gen (use_abs : bool) (fs : fsys) (cwd path : str) : find_result :=
+  let rd := find_upwards_gen use_abs fs cwd path REGAL true in
+  let rf := find_upwards_gen use_abs fs cwd path REGAL_YAML false in
   match rd, rf with
   | UFuel, _ | _, UFuel => FErr EOutOfFuel
   | _, _ =>
@@ -98,6 +110,10 @@ Definition find_config (fs : fsys) (path : str) : find_result :=
          | _ => match rf with UFound f => FFound f | _ => FErr ENotFound (* unreachable *) end
          end
   end.
+
+(* [cwd]: the working directory of the process, [path]: the path as the caller spelled it *)
+Definition find_config := find_config_gen true.
+Definition find_config_pinned := find_config_gen false.
 
 (* ---------- user-level fallback: cmd/utils.go readUserConfig ---------- *)
 
@@ -195,8 +211,9 @@ Fixpoint walk (c0 : contents) (lv : levels) (file : option str) (comps : list st
          end
   end.
 
+(* (the OS resolves "." and ".." elements; there are no symbolic links in a chain) *)
 Definition fs_of_chain (c0 : contents) (lv : levels) (file : option str) : fsys :=
-  fun p => if is_rooted p then walk c0 lv file (comps_of p) else NAbsent.
+  fun p => if is_rooted p then walk c0 lv file (comps_of (clean p)) else NAbsent.
 
 (* ---------- specification vocabulary ---------- *)
 
